@@ -297,6 +297,36 @@ def scenario_part(ctx: vlib.Ctx):
         scenarios.dispose(sc)
 
 
+def directed_part(ctx: vlib.Ctx):
+    """round 7, directed and inside the Coq grammar: Literal types that list an int and the bool comparing equal to it (both orders, at depth),
+    Optional fields with falsy non-None defaults holding None, Optional items of a NamedTuple held by a nullable field.  Correspondence with
+    TyModel (pk, uk) and the round-trip oracle, which compares the concrete classes recursively (gen.same: True is not 1)"""
+    from harness import gen, tycorr, tyoracle
+    cases, bad, log = tycorr.run_directed(ctx, "c01_r7", ctx.budget(4, 24))
+    tyoracle.report_corr(ctx, "TyModel (pk, uk) vs BasicEncoder/BasicDecoder and to_dict/from_dict on the directed schemas (int/bool Literal members, "
+                              "None in Optional fields with falsy defaults, Optional items of NamedTuples in nullable holders)", cases, bad, log)
+    for c in cases:
+        if c["kind"] != "enc":
+            continue
+        t, fam, v = c["t"], c["fam"], c["value"]
+        ctx.count((t.key(), repr(v), c.get("entry", "")))
+        if c.get("entry") == "mixin":
+            entry, f = "mixin_roundtrip", (lambda: type(v).from_dict(v.to_dict()))
+        else:
+            entry, f = "codec_roundtrip", (lambda: c["dec_o"].decode(c["enc_o"].encode(v)))
+        try:
+            back = f()
+            ok = gen.same(back, v)
+            obs = "ok:" + gen.py_src(back)
+        except Exception as e:
+            ok = False
+            obs = f"exc:{type(e).__name__}"
+        if not ok:
+            ctx.fail(f"{gen.py_ann(t)}: {entry} of {gen.py_src(v)[:200]} gives {obs[:200]}",
+                     {"entry": entry, "source": fam.source(), "type": gen.py_ann(t), "input_src": gen.py_src(v),
+                      "observed": obs, "expected": "ok:" + gen.py_src(v)}, {"kind": "roundtrip"})
+
+
 def run(ctx: vlib.Ctx):
     ctx.coverage["rule"] = ("timezone leaf: every whole-minute offset in (-24h,24h) (exhaustive, distinct = offsets); "
                             "general round trip: schemas from the shared grammar generator (depth<=4, nested/recursive/mixin dataclasses, "
@@ -312,6 +342,8 @@ def run(ctx: vlib.Ctx):
     tyoracle.report_corr(ctx, "TyNtDict (pk_nd, uk_nd) vs BasicEncoder/BasicDecoder under an as_dict dialect", ncases, nbad, nlog)
     tv_part(ctx, "c01_tv", None, ctx.budget(12, 100))
     omit_part(ctx)
+    # round-7 part last (same reason)
+    directed_part(ctx)
 
 
 def replay(rep: dict) -> int:
